@@ -83,6 +83,7 @@ type Ctx struct {
 	lemma     bool
 	stableNames bool
 	nzDone    map[string]bool
+	definesUsed map[string]bool
 }
 
 func (c *Ctx) drop(what string) { c.dropped[what]++ }
